@@ -17,7 +17,7 @@ type c05Case struct {
 
 var c05Lexemes = []string{
 	"a", " ", "\n", "\\", "{", "}", "{{", "}}", "-", "--", "{{--", "--}}", "@", "@if", "@en", "@end",
-	"\r\n", "\\\\", "@i", "@else", "@elseif", "@each", "@slot", "@dum", "@dump", "@breakI", "(", ")", "é", "\xff",
+	"\r\n", "\\\\", "@i", "@else", "@elseif", "@each", "@slot", "@dum", "@dump", "@breakI", "(", ")", "é", "\xff", "@END", "@If", "@Else", "@EACH(",
 }
 
 var c05Structural = []string{"a", "\\", "{", "}", "{{", "}}", "-", "--", "{{--", "--}}", "@", "@if", "@en", "\n"}
